@@ -154,9 +154,13 @@ class Rig:
             self.requests.append((request.level, request.name))
             return prev(request)
 
-        if e == "toggle":
-            for d in self.w.datasets.values():
+        # the per-dataset toggle is put into the wanted position before every evaluation with plain,
+        # idempotent calls (disable_effects() / enable_effects() are switches, not a counter)
+        for d in self.w.datasets.values():
+            if e == "toggle":
                 d[1].disable_effects()
+            else:
+                d[1].enable_effects()
         try:
             with runtime.handle(LogRequest, recorder):
                 ctxs = []
@@ -174,9 +178,6 @@ class Rig:
                     for cm in reversed(ctxs):
                         cm.__exit__(None, None, None)
         finally:
-            if e == "toggle":
-                for d in self.w.datasets.values():
-                    d[1].enable_effects()
             self.logger.removeHandler(self.capture)
             self.logger.setLevel(old_level)
             self.logger.propagate = old_prop
